@@ -148,38 +148,41 @@ CLAIMS = {
 }
 # clauses added after the first version of the claims (seeding rounds 1 and 2, defects F17-F22)
 ALSO = {
-    "C01": "a memoised function over CRS-tagged operands keys on the operand or its CRS; a truncated/weakened guard (`crs is not None and ...`) does not count.",
+    "C01": "a memoised function over CRS-tagged operands keys on the operand or its CRS; a truncated/weakened guard (`crs is not None and ...`) does not count. CRS.__eq__ reads only construction-time state (EQLAZY, F26).",
     "C02": "integer index -> slice only after negative values were adjusted; GCP control-point frame <-> view frame conversions apply the view affine the right way; "
-           "every GCPGeoBox member whose GeoBox sibling is computed from the affine reads the view affine too.",
-    "C03": "the read-shrink rescaling is composed on the side of the dst->src transform that _can_paste validates; a mid-point is half the sum of the two ends.",
-    "C04": "window-relative index in the assembler; tiling and geobox of a tile agree; locate siblings agree.",
+           "every GCPGeoBox member whose GeoBox sibling is computed from the affine reads the view affine too. Every use of self._affine as a pixel->world mapping in the shared base class is overridden in GCPGeoBox or guarded by self.linear (F23); a COUNT is never the ceiling of a raw float quotient (F24); integer indexes may be numpy integers (F42).",
+    "C03": "the read-shrink rescaling is composed on the side of the dst->src transform that _can_paste validates; a mid-point is half the sum of the two ends. Boundary samples are double precision (F52); align=0 cannot reach a divisor (F28). Known finding: five boundary samples per side.",
+    "C04": "window-relative index in the assembler; tiling and geobox of a tile agree; locate siblings agree. An index is told from a slice in a way that covers numpy integers (F42).",
     "C05": "both axes are padded with the shared level count; the source is rechunked unless its whole chunk shape equals the layout's; the write-order list is not "
-           "re-sorted after the level reversal; every source block named from a layout tile index is bounded by the source's chunk grid (F21).",
-    "C06": "every normal exit of append logs what it stored; the lhs reservation reaches every chunk of a bunch.",
-    "C07": "the transformer cache key is complete (from, to, always_xy).",
-    "C08": "origin comes from snap_grid; bbox of the polygon after re-projection.",
+           "re-sorted after the level reversal; every source block named from a layout tile index is bounded by the source's chunk grid (F21). Next-level shape/geobox prepared only while a next level exists; rechunk decided on the full chunk structure, not chunksize; RGB(A) shape heuristic only where the GeoBox cannot tell (F46, F47).",
+    "C06": "every normal exit of append logs what it stored; the lhs reservation reaches every chunk of a bunch. No part id handed to a writer is an integer literal: the header / left-over part uses write.min_part (F37).",
+    "C07": "the transformer cache key is complete (from, to, always_xy). The densify loop is reached only with a positive step (F31); the CRS construction cache publishes under a lock (F43).",
+    "C08": "origin comes from snap_grid; bbox of the polygon after re-projection. A region projected in order to cover it is densified (F32). Declared finding: shape=<int> snapped gives N+1.",
     "C09": "the Dataset variant does not route per-variable results through Dataset.map (attributes as computed by the DataArray sibling, F22); GeoBox/GCPGeoBox cached "
-           "by the accessor survive pickling (custom pickle hooks pass every constructor parameter feeding __eq__, no closures in state).",
-    "C10": "rotation tolerance not relaxed; same shrink-side agreement as C03; no repeated operand in is_affine_st; explicit dst_nodata=0 is not treated as None.",
-    "C11": "the footprint is densified by the projection call on every branch; a square resolution is never built from one axis of the source; transformer key complete.",
-    "C12": "the emptiness test is on the intersection itself; footprint densified on every branch; no inward half-pixel shift of tile ranges.",
+           "by the accessor survive pickling (custom pickle hooks pass every constructor parameter feeding __eq__, no closures in state). No unconditional assert contradicts a Union annotation (F45).",
+    "C10": "rotation tolerance not relaxed; same shrink-side agreement as C03; no repeated operand in is_affine_st; explicit dst_nodata=0 is not treated as None. The bool detour maps nodata into the stretched domain (F53). Known findings: paste eligibility not extent-aware; rasterio's identity-transform special case.",
+    "C11": "the footprint is densified by the projection call on every branch; a square resolution is never built from one axis of the source; transformer key complete. Footprint buffer uses resolution magnitudes (F27). Declared finding: UTM zone across the antimeridian.",
+    "C12": "the emptiness test is on the intersection itself; footprint densified on every branch; no inward half-pixel shift of tile ranges. Tile queries densify a query in another CRS and accept an empty one (F33, F36); resolution magnitudes before max() (F27). Known finding: GEOSException on invalid lon/lat footprints.",
     "C13": "plane axis of the fill block; a hand-built array graph's layer name is unique or a token of every parameter reaching the tasks; a loop-local memo is keyed by "
-           "everything its value depends on; tile ranges round outwards.",
-    "C14": "a tile is yielded for a polygon query only under the not-disjoint test against that tile's extent; tile size per axis from that axis' resolution.",
-    "C15": "band-last input is permuted exactly (Y,X,B)->(B,Y,X); one side-car memory file per layer; default-overview threshold is 512 pixels; explicit nodata first.",
+           "everything its value depends on; tile ranges round outwards. Tile queries densify (F33); GCPGeoBox sources accepted (F45). Known findings: invalid lon/lat footprints; declared: 0..360 longitude wrap.",
+    "C14": "a tile is yielded for a polygon query only under the not-disjoint test against that tile's extent; tile size per axis from that axis' resolution. Polygon query densifies, excludes touch-only contact and accepts an empty polygon (F33, F35).",
+    "C15": "band-last input is permuted exactly (Y,X,B)->(B,Y,X); one side-car memory file per layer; default-overview threshold is 512 pixels; explicit nodata first. Every final copy names its driver (F49); band layout from the caller's ydim (F54); every block window written. Known finding: 64-bit integer nodata through GDAL.",
     "C16": "overlap_roi clamps both ends of both ranges (F18); every box contributes to the union fold; an almost-integer translation is rounded, not truncated; "
-           "sub-pixel parts only through odc.geo.math helpers.",
-    "C17": "roi_pad normalises through the negative-index path; rounding of scaled_down_shape is upward.",
+           "sub-pixel parts only through odc.geo.math helpers. project/enclosing densify (F33). Known finding: numpy.isclose default tolerance on scale terms.",
+    "C17": "roi_pad normalises through the negative-index path; rounding of scaled_down_shape is upward. Negative slice bounds clamp at 0 (F29); an optional alignment parameter cannot be 0 where it divides (F28).",
     "C18": "the shared distributed Variable is written on the worker path only inside the lock region; the file sink appends only after the first part replaced the "
-           "destination; a configured limit of 0 is reported, not replaced by the default.",
+           "destination; a configured limit of 0 is reported, not replaced by the default. File sink moves the first part with a copy fallback and never mmaps an empty part (F39).",
     "C19": "no class pickled by the default protocol stores a closure (F19); GeoJSON readers on the unpickle path handle GeometryCollection (F20); __reduce__ passes every "
-           "constructor parameter feeding __eq__; a case fold in a cache key is matched by the same fold of the cached value.",
-    "C20": "abs() is never taken after a directional rounding of a signed value; a fallback_* parameter never conditions the measurement it stands in for.",
+           "constructor parameter feeding __eq__; a case fold in a cache key is matched by the same fold of the cached value. Equality/hash/token read construction-time state only (EQLAZY, F26); the pinning cache publishes under a lock (IDPIN-ATOMIC, F43).",
+    "C20": "abs() is never taken after a directional rounding of a signed value; a fallback_* parameter never conditions the measurement it stands in for. pow2 idioms; ceil of float quotients snapped; isclose with explicit relative tolerance.",
 }
 _GENERIC = (
     " Over the anchored modules also: no repeated operand of and/or / self-comparison / repeated elif test (R-DUP), no truth test of an optional-number "
     "parameter (R-TRUTHY), no absolute-epsilon affine predicate on a pixel->world affine (R-ABSEPS), no under-keyed loop-local memo (R-MEMO), no fmod/modf/trunc "
-    "outside odc.geo.math (R-REMAINDER); these zero-count rules are re-armed on every run by in-memory positive controls."
+    "outside odc.geo.math (R-REMAINDER), no caller tolerance through math.isclose's default rel_tol (R-TOL), no single-precision coordinates on the planning path "
+    "(R-PRECISION), no signed resolution inside max()/min() (R-SIGNMAG), no optional divisor that may be 0 (R-ZERODIV), no vertex-only projection of a covering region "
+    "(R-DENSIFY), no while loop stepping by an unchecked parameter (R-TERMINATION), no int-only index test (R-INTIDX), no assert against the own annotation (R-ANNOT); "
+    "zero-count rules are re-armed on every run by in-memory positive controls."
 )
 for _k, _c in CLAIMS.items():
     _c["note"] = _NOTE
